@@ -145,6 +145,9 @@ def run(tier, seed):
     inputs["segment"].append(("between-windows", (np.array([[0.0, 2.0], [2.0, 4.0], [4.0, 7.0]]), ["a", "b", "a"],
                                                  np.array([[0.0, 2.75], [2.75, 5.0], [5.0, 7.0]]), ["x", "y", "x"])))
     # note offsets between offset_ratio 0.2 (default) and 0.5 (user value) of the reference duration
+    # exactly one beat survives the trimming on one side (a beat is a beat: nothing may be short-circuited)
+    inputs["beat"].append(("one-surviving-reference-beat", (np.array([1.0, 4.0, 6.0]), np.array([5.5, 6.015625, 7.0]))))
+    inputs["beat"].append(("one-surviving-estimated-beat", (np.array([5.5, 6.0, 7.0, 8.0]), np.array([2.0, 6.015625]))))
     inputs["transcription"].append(("between-offset-ratios", (np.array([[0.0, 1.0], [2.0, 3.0], [4.0, 4.5]]), np.array([440.0, 220.0, 330.0]),
                                                              np.array([[0.0, 1.375], [2.0, 3.125], [4.0, 4.5]]), np.array([440.0, 220.0, 330.0]))))
     inputs["transcription_velocity"].append(("between-offset-ratios", (np.array([[0.0, 1.0], [2.0, 3.0], [4.0, 4.5]]), np.array([440.0, 220.0, 330.0]), np.array([60.0, 80.0, 100.0]),
